@@ -37,7 +37,7 @@ def oracle(cases, impl):
                 continue  # partition count 0 is outside the property (Go division panic)
             if len(toks) != 2 or not toks[1].isdigit():
                 fails.append(dict(name="hash-" + cid, case=dict(key=c[1], pnum=n, impl=out),
-                                  what="server and SDK disagree on the partition, or the mapping panicked: " + out))
+                                  what="server, redis front end (GetPKAndHashSum) and SDK disagree on the partition, or the mapping panicked: " + out))
             elif not (0 <= int(toks[1]) < n):
                 fails.append(dict(name="range-" + cid, case=dict(key=c[1], pnum=n, impl=out),
                                   what="partition index out of range"))
